@@ -2,7 +2,7 @@
    lemma is about one function of the node model, for every state and input. *)
 From Coq Require Import List NArith Bool Lia.
 From RaftV Require Import Base Types Quorum Progress Tracker Storage Log Raft RawNode Tactics
-     RaftMono RaftRouting PreVoteProofs.
+     RaftMono RaftRouting PreVoteProofs QuorumProofs.
 Import ListNotations.
 Open Scope N_scope.
 
@@ -337,6 +337,28 @@ Proof.
     apply N.leb_gt in Q. unfold nlen in Q. lia.
 Qed.
 
+(* ... and that order statistic is acknowledged by a majority of EACH half of a joint
+   configuration: reads that are confirmed were answered by a majority of the incoming voters and
+   by a majority of the outgoing voters (an empty half asks for nothing) *)
+Lemma majority_acked_mono vs ack i j : j <= i -> majority_acked vs ack i -> majority_acked vs ack j.
+Proof.
+  unfold majority_acked. intros L H. rewrite ackers_count in *.
+  pose proof (count_ge_mono j i (map (ack_or_zero ack) vs) L). lia.
+Qed.
+
+Theorem ro_advance_both_majorities ro c0 c1 ro' out :
+  ro_maybe_advance ro c0 c1 = Ok (ro', out) -> out <> [] ->
+  (c0 <> [] -> majority_acked c0 (ro_acks ro) (ro_confirmed ro')) /\
+  (c1 <> [] -> majority_acked c1 (ro_acks ro) (ro_confirmed ro')).
+Proof.
+  intros H Hne. destruct (ro_advance_quorum _ _ _ _ _ H) as [[E _]|(_ & E & _)]; [contradiction|].
+  rewrite E, joint_committed_min. split; intros Hc.
+  - apply (majority_acked_mono _ _ (majority_committed c0 (ro_acks ro))); [lia|].
+    apply majority_committed_greatest; exact Hc.
+  - apply (majority_acked_mono _ _ (majority_committed c1 (ro_acks ro))); [lia|].
+    apply majority_committed_greatest; exact Hc.
+Qed.
+
 (* read bookkeeping is dropped on every role or term change (reset) *)
 Theorem reset_clears_read_only r t r' :
   reset st r t = Ok r' -> r_read_only r' = new_readonly (ro_option (r_read_only r)).
@@ -344,6 +366,41 @@ Proof.
   unfold reset. intros H. destruct (negb _);
   (destruct (reset_randomized _) as [r1|] eqn:E; cbn [bind] in H; [|discriminate]);
   inversion H; subst; cbn; unfold reset_randomized in E; destruct (r_draws _); inversion E; subst; reflexivity.
+Qed.
+
+(* ... and so is everything a node knew about its peers' logs: after reset every peer's Match is 0
+   and it is probed again (what was acknowledged in an earlier term says nothing about the peer's
+   log now: its tail may have been replaced since) *)
+Theorem reset_forgets_matches r t r' id pr :
+  reset st r t = Ok r' -> In (id, pr) (t_progress (r_trk r')) -> id <> r_id r ->
+  pr_match pr = 0 /\ pr_state_ pr = StateProbe /\ pr_pending_snapshot pr = 0 /\ pr_recent_active pr = false.
+Proof.
+  unfold reset. intros H Hin Hne. destruct (negb _);
+  (destruct (reset_randomized _) as [r1|] eqn:E; cbn [bind] in H; [|discriminate]);
+  inversion H; subst; clear H; cbn in Hin; apply in_map_iff in Hin; destruct Hin as ([id0 p0] & Q & _);
+  inversion Q; subst; clear Q; cbn [fst snd] in *;
+  unfold reset_randomized in E; destruct (r_draws _); inversion E; subst; cbn in *;
+  (destruct (N.eqb_spec id r_id0) as [X|_] || destruct (N.eqb_spec id (r_id r)) as [X|_]); try (exfalso; apply Hne; exact X);
+  cbn; repeat split; reflexivity.
+Qed.
+
+(* what a node answers to a MsgSnap: one MsgAppResp, held back until the write is durable, that
+   vouches for the whole log only if the snapshot was installed (the log is then the snapshot point
+   and nothing else); a snapshot that was ignored, or that only moved the commit index forward, is
+   answered with the commit index: the tail beyond it was not checked against the sender's log *)
+Theorem snapshot_answer r m r' :
+  handle_snapshot st r m = Ok r' ->
+  exists r1 ok a,
+    restore st r (match m_snapshot m with Some s => s | None => empty_snapshot end) = Ok (r1, ok) /\
+    r_msgs_after_append r' = r_msgs_after_append r1 ++ [a] /\ r_msgs r' = r_msgs r1 /\
+    m_type a = MsgAppResp /\ m_to a = m_from m /\ m_from a = r_id r1 /\ m_term a = r_term r1 /\
+    m_reject a = false /\
+    m_index a = (if ok then last_index st r1 else l_committed (r_log r1)).
+Proof.
+  unfold handle_snapshot. intros H.
+  destruct (restore st r _) as [[r1 ok]|] eqn:E; cbn [bind] in H; [|discriminate].
+  exists r1, ok. unfold send in H. cbn in H. inversion H; subst; clear H.
+  eexists. split; [reflexivity|]. cbn. repeat split; reflexivity.
 Qed.
 
 (* ---------- C14 / model soundness: the nested Step call ---------- *)
